@@ -6,27 +6,46 @@
 #define VERIF_SERDE_FAMS_HPP
 #include "serde_core.hpp"
 #include "hooksrc.hpp"
+#ifndef SERDE_GROUP
+#define SERDE_GROUP 0            // 0 = every family in one translation unit; 1..5 = one group (prebuilt objects, see fam_serde.py)
+#endif
+#define SERDE_G(k) (SERDE_GROUP == 0 || SERDE_GROUP == (k))
+#if SERDE_GROUP == 0
+#define SERDE_LINKAGE inline
+#else
+#define SERDE_LINKAGE
+#endif
 #define private public
 #define protected public
+#if SERDE_G(1)
 #include "theta_sketch.hpp"
 #include "theta_union.hpp"
 #include "tuple_sketch.hpp"
 #include "tuple_union.hpp"
 #include "array_of_doubles_sketch.hpp"
+#endif
+#if SERDE_G(2)
 #include "hll.hpp"
 #include "cpc_sketch.hpp"
 #include "cpc_union.hpp"
+#endif
+#if SERDE_G(3)
 #include "kll_sketch.hpp"
 #include "req_sketch.hpp"
 #include "quantiles_sketch.hpp"
+#endif
+#if SERDE_G(4)
 #include "frequent_items_sketch.hpp"
 #include "count_min.hpp"
 #include "var_opt_sketch.hpp"
 #include "var_opt_union.hpp"
 #include "ebpps_sketch.hpp"
+#endif
+#if SERDE_G(5)
 #include "tdigest.hpp"
 #include "bloom_filter.hpp"
 #include "density_sketch.hpp"
+#endif
 #undef private
 #undef protected
 
@@ -43,7 +62,13 @@ struct TrapSource : vh::Source {
   uint64_t index(uint64_t n) override { if (n == 0) throw std::logic_error("random index in an empty range"); return vh::Source::index(n); }
 };
 inline TrapSource& src() { static TrapSource s; return s; }
+#if SERDE_GROUP == 0
 inline void reseed(uint64_t s) { src().out = nullptr; src().seed(s); random_utils::verif_src() = &src(); }
+#elif SERDE_GROUP == 1
+void reseed(uint64_t s) { src().out = nullptr; src().seed(s); random_utils::verif_src() = &src(); }
+#else
+void reseed(uint64_t s);
+#endif
 
 inline uint64_t mix64(uint64_t z) {
   z += 0x9E3779B97F4A7C15ULL;
@@ -133,6 +158,7 @@ inline void put_rows(Line& l, std::vector<Line>& rows, bool sorted) {
 template<typename V> inline Bytes to_bytes(const V& v) { return Bytes(v.begin(), v.end()); }
 inline I arg(const Line& t, size_t i, I dflt = 0) { return i < t.size() ? t[i] : dflt; }
 
+#if SERDE_G(1)
 // ===============================================================================================================
 // Theta
 // ===============================================================================================================
@@ -313,8 +339,17 @@ inline Obj* build_aod(const Line& t) {  // lg_k p seed n base ordered num_values
   for (int64_t i = 0; i < n; ++i) { for (uint8_t j = 0; j < nv; ++j) a[j] = 0.5 * (double)(j + 1) + (double)(i % 4); u.update((uint64_t)(base + i), a); }
   return new AodObj(compact_array_of_doubles_sketch(u, arg(t, 8, 1) != 0), seed, lgk);
 }
+SERDE_LINKAGE Obj* build_g1(int fam, const Line& t) {
+  switch (fam) {
+    case FAM_THETA: return build_theta(t);
+    case FAM_TUPLE: return build_tuple(t);
+    case FAM_AOD: return build_aod(t);
+    default: return nullptr;
+  }
+}
+#endif // group 1
 
-
+#if SERDE_G(2)
 // ===============================================================================================================
 // HLL (3 target types x list/set/hll x compact/updatable image)
 // ===============================================================================================================
@@ -452,17 +487,555 @@ inline Obj* build_cpc(const Line& t) {  // lg_k seed n base merged
   return new CpcObj(std::move(s), seed);
 }
 
-// FAMILIES-END
-inline Obj* build(int fam, const Line& t) {
+SERDE_LINKAGE Obj* build_g2(int fam, const Line& t) {
   switch (fam) {
-    case FAM_THETA: return build_theta(t);
-    case FAM_TUPLE: return build_tuple(t);
-    case FAM_AOD: return build_aod(t);
     case FAM_HLL: return build_hll(t);
     case FAM_CPC: return build_cpc(t);
     default: return nullptr;
   }
 }
-inline bool legacy_image(Obj& x, int kind, Bytes& out) { return x.legacy(kind, out); }
+#endif // group 2
+
+#if SERDE_G(3)
+// ===============================================================================================================
+// KLL, REQ, classic quantiles (one adapter; item types float / double / int64 / string; default and custom serde)
+// ===============================================================================================================
+template<typename T> inline kll_sketch<T> q_make(kll_sketch<T>*, int k, int) { return kll_sketch<T>((uint16_t)k); }
+template<typename T> inline req_sketch<T> q_make(req_sketch<T>*, int k, int hra) { return req_sketch<T>((uint16_t)k, hra != 0); }
+template<typename T> inline quantiles_sketch<T> q_make(quantiles_sketch<T>*, int k, int) { return quantiles_sketch<T>((uint16_t)k); }
+template<typename T> inline int q_kind(const kll_sketch<T>&) { return 0; }
+template<typename T> inline int q_kind(const req_sketch<T>&) { return 1 + (0); }
+template<typename T> inline int q_kind(const quantiles_sketch<T>&) { return 2; }
+template<typename T> inline int q_extra(const kll_sketch<T>&) { return 0; }
+template<typename T> inline int q_extra(const req_sketch<T>& s) { return s.is_HRA() ? 1 : 0; }
+template<typename T> inline int q_extra(const quantiles_sketch<T>&) { return 0; }
+template<typename Sk, typename SD> inline long q_max(const Sk&, const SD&) { return -1; }
+template<typename SD> inline long q_max(const kll_sketch<float>& s, const SD&) { return (long)kll_sketch<float>::get_max_serialized_size_bytes(s.get_k(), s.get_n()); }
+template<typename SD> inline long q_max(const kll_sketch<int64_t>& s, const SD&) { return (long)kll_sketch<int64_t>::get_max_serialized_size_bytes(s.get_k(), s.get_n()); }
+template<typename SD> inline long q_max(const kll_sketch<std::string>& s, const SD& sd) {
+  size_t m = 0; for (auto it = s.begin(); it != s.end(); ++it) m = std::max(m, sd.size_of_item((*it).first));
+  if (!s.is_empty()) { m = std::max(m, sd.size_of_item(s.get_min_item())); m = std::max(m, sd.size_of_item(s.get_max_item())); }
+  return (long)kll_sketch<std::string>::get_max_serialized_size_bytes(s.get_k(), s.get_n(), m);
+}
+
+template<typename Sk, typename T, typename SD, int FAMCODE>
+struct QObj : Obj {
+  Sk sk; SD sd;
+  explicit QObj(Sk&& s) : sk(std::move(s)) {}
+  int fam() const override { return FAMCODE; }
+  int state_class() override {   // 0 empty, 1 single item, 2 exact, 3 estimation, 4 REQ raw-items form (2..4 items); +8 HRA
+    int c = sk.is_empty() ? 0 : sk.get_n() == 1 ? 1 : sk.is_estimation_mode() ? 3 : 2;
+    if (q_kind(sk) == 1 && sk.get_n() >= 2 && sk.get_n() <= 4 && !sk.is_estimation_mode()) c = 4;
+    return c + 8 * q_extra(sk);
+  }
+  Bytes ser(unsigned h) override { return to_bytes(sk.serialize(h, sd)); }
+  void ser(std::ostream& os) override { sk.serialize(os, sd); }
+  long adv_size() override { return (long)sk.template get_serialized_size_bytes<SD>(sd); }
+  long max_size() override { return q_max(sk, sd); }
+  Obj* de(const void* p, size_t n) override { return new QObj(Sk::deserialize(p, n, sd)); }
+  Obj* de(std::istream& is) override { return new QObj(Sk::deserialize(is, sd)); }
+  void observe(Line& l, int mode) override {
+    l.push_back(sk.get_k()); l.push_back((I)sk.get_n()); l.push_back((I)sk.get_num_retained()); l.push_back(sk.is_empty()); l.push_back(sk.is_estimation_mode());
+    l.push_back(q_extra(sk));
+    if (sk.is_empty()) return;
+    Item<T>::enc(l, sk.get_min_item()); Item<T>::enc(l, sk.get_max_item());
+    std::vector<Line> rows; size_t guard = 0;
+    for (auto it = sk.begin(); it != sk.end(); ++it) {
+      Line r; Item<T>::enc(r, (*it).first); r.push_back((I)(*it).second); rows.push_back(r);
+      if (++guard > (1u << 22)) throw std::runtime_error("iteration does not end");
+    }
+    put_rows(l, rows, true);
+    if (mode >= 1) {
+      static const double RK[5] = {0.0, 0.25, 0.5, 0.9, 1.0};
+      for (int i = 0; i < 5; ++i) Item<T>::enc(l, sk.get_quantile(RK[i]));
+      l.push_back(vh::dbits(sk.get_rank(sk.get_min_item()))); l.push_back(vh::dbits(sk.get_rank(sk.get_max_item(), false)));
+    }
+  }
+  bool cont(const Line& seg) override {   // n base un
+    int64_t n = (int64_t)arg(seg, 0, 50), base = (int64_t)arg(seg, 1, 7), un = (int64_t)arg(seg, 2, 0);
+    for (int64_t i = 0; i < n; ++i) sk.update(Item<T>::of(pat(2, base, i, n)));
+    if (un > 0) {
+      Sk other = q_make((Sk*)nullptr, sk.get_k(), q_extra(sk));
+      for (int64_t i = 0; i < un; ++i) other.update(Item<T>::of(pat(2, base + 77, i, un)));
+      sk.merge(other);
+    }
+    return true;
+  }
+};
+template<typename Sk, typename T, typename SD, int FAMCODE>
+inline Obj* build_q(const Line& t) {   // k extra n pattern base merged
+  int k = (int)arg(t, 3, 200), extra = (int)arg(t, 4, 0); int64_t n = (int64_t)arg(t, 5), base = (int64_t)arg(t, 7); int pattern = (int)arg(t, 6);
+  Sk s = q_make((Sk*)nullptr, k, extra);
+  if (arg(t, 8)) {
+    Sk o = q_make((Sk*)nullptr, k, extra);
+    for (int64_t i = 0; i < n; ++i) { if (i % 2) s.update(Item<T>::of(pat(pattern, base, i, n))); else o.update(Item<T>::of(pat(pattern, base, i, n))); }
+    s.merge(o);
+  } else {
+    for (int64_t i = 0; i < n; ++i) s.update(Item<T>::of(pat(pattern, base, i, n)));
+  }
+  return new QObj<Sk, T, SD, FAMCODE>(std::move(s));
+}
+SERDE_LINKAGE Obj* build_g3(int fam, const Line& t) {
+  switch (fam) {
+    case FAM_KLL_F: return build_q<kll_sketch<float>, float, serde<float>, FAM_KLL_F>(t);
+    case FAM_KLL_I: return build_q<kll_sketch<int64_t>, int64_t, serde<int64_t>, FAM_KLL_I>(t);
+    case FAM_KLL_S: return build_q<kll_sketch<std::string>, std::string, serde<std::string>, FAM_KLL_S>(t);
+    case FAM_REQ_F: return build_q<req_sketch<float>, float, serde<float>, FAM_REQ_F>(t);
+    case FAM_REQ_S: return build_q<req_sketch<std::string>, std::string, xs_serde, FAM_REQ_S>(t);
+    case FAM_QNT_D: return build_q<quantiles_sketch<double>, double, serde<double>, FAM_QNT_D>(t);
+    case FAM_QNT_S: return build_q<quantiles_sketch<std::string>, std::string, xs_serde, FAM_QNT_S>(t);
+    default: return nullptr;
+  }
+}
+#endif // group 3
+
+#if SERDE_G(4)
+// independent walkers over serialized items (used only to canonicalise images whose item order is unspecified)
+template<typename T, typename SD> struct ItemWalk;
+template<typename SD> struct ItemWalk<int64_t, SD> { static size_t len(const uint8_t*, size_t avail) { return avail >= 8 ? 8 : 0; } };
+template<> struct ItemWalk<std::string, serde<std::string>> {
+  static size_t len(const uint8_t* p, size_t avail) { if (avail < 4) return 0; uint32_t n; memcpy(&n, p, 4); return (size_t)n + 4 <= avail ? (size_t)n + 4 : 0; }
+};
+template<> struct ItemWalk<std::string, xs_serde> {
+  static size_t len(const uint8_t* p, size_t avail) { if (avail < 2) return 0; size_t n = p[0]; return n + 2 <= avail ? n + 2 : 0; }
+};
+
+// ===============================================================================================================
+// Frequent items (int64 with the default serde, strings with the default serde)
+// ===============================================================================================================
+template<typename T, typename SD, int FAMCODE>
+struct FiObj : Obj {
+  typedef frequent_items_sketch<T> sk_t;
+  sk_t sk; SD sd;
+  explicit FiObj(sk_t&& s) : sk(std::move(s)) {}
+  int fam() const override { return FAMCODE; }
+  int state_class() override {   // 0 empty, 1 no purge yet, 2 purged (offset > 0), 3 counters all purged but weight seen
+    if (sk.get_total_weight() == 0) return 0;
+    if (sk.get_num_active_items() == 0) return 3;
+    return sk.get_maximum_error() > 0 ? 2 : 1;
+  }
+  Bytes ser(unsigned h) override { return to_bytes(sk.serialize(h, sd)); }
+  void ser(std::ostream& os) override { sk.serialize(os, sd); }
+  long adv_size() override { return (long)sk.get_serialized_size_bytes(sd); }
+  Obj* de(const void* p, size_t n) override { return new FiObj(sk_t::deserialize(p, n, sd)); }
+  Obj* de(std::istream& is) override { return new FiObj(sk_t::deserialize(is, sd)); }
+  void observe(Line& l, int mode) override {
+    l.push_back(sk.is_empty()); l.push_back((I)sk.get_num_active_items()); l.push_back((I)sk.get_total_weight()); l.push_back((I)sk.get_maximum_error());
+    std::vector<Line> rows;
+    auto fr = sk.get_frequent_items(NO_FALSE_NEGATIVES, 0);
+    for (const auto& r : fr) { Line x; Item<T>::enc(x, r.get_item()); x.push_back((I)r.get_estimate()); x.push_back((I)r.get_lower_bound()); x.push_back((I)r.get_upper_bound()); rows.push_back(x); }
+    put_rows(l, rows, true);
+    if (mode >= 1) {
+      l.push_back(vh::dbits(sk.get_epsilon()));
+      for (int64_t v = 0; v < 6; ++v) { T it = Item<T>::of(v * 5); l.push_back((I)sk.get_estimate(it)); l.push_back((I)sk.get_lower_bound(it)); l.push_back((I)sk.get_upper_bound(it)); }
+    }
+  }
+  bool cont(const Line& seg) override {
+    int64_t n = (int64_t)arg(seg, 0, 50), base = (int64_t)arg(seg, 1, 7), un = (int64_t)arg(seg, 2, 0);
+    for (int64_t i = 0; i < n; ++i) sk.update(Item<T>::of(pat(4, base, i, n) % 40), (uint64_t)(1 + i % 3));
+    if (un > 0) { sk_t o(sk.map.get_lg_max_size()); for (int64_t i = 0; i < un; ++i) o.update(Item<T>::of(pat(5, base, i, un)), 2); sk.merge(o); }
+    return true;
+  }
+  bool unordered_layout(const Bytes& b) override { return b.size() > 32; }
+  Bytes canon(const Bytes& b) override {   // [32 preamble bytes][weights][items] -> rows (weight, item image) sorted
+    if (b.size() <= 32) return b;
+    uint32_t n; memcpy(&n, b.data() + 8, 4);
+    if ((size_t)n * 8 > b.size() - 32) return b;
+    size_t ip = 32 + (size_t)n * 8;
+    std::vector<std::pair<Bytes, Bytes>> rows;
+    for (uint32_t i = 0; i < n; ++i) {
+      size_t k = ItemWalk<T, SD>::len(b.data() + ip, b.size() - ip);
+      if (k == 0) return b;
+      rows.push_back(std::make_pair(Bytes(b.begin() + ip, b.begin() + ip + k), Bytes(b.begin() + 32 + 8 * i, b.begin() + 40 + 8 * i)));
+      ip += k;
+    }
+    std::sort(rows.begin(), rows.end());
+    Bytes c(b.begin(), b.begin() + 32);
+    for (const auto& r : rows) c.insert(c.end(), r.second.begin(), r.second.end());
+    for (const auto& r : rows) c.insert(c.end(), r.first.begin(), r.first.end());
+    c.insert(c.end(), b.begin() + ip, b.end());
+    return c;
+  }
+};
+template<typename T, typename SD, int FAMCODE>
+inline Obj* build_fi(const Line& t) {   // lg_max n pattern base universe
+  frequent_items_sketch<T> s((uint8_t)arg(t, 3, 4));
+  int64_t n = (int64_t)arg(t, 4), base = (int64_t)arg(t, 6), uni = std::max<int64_t>(1, (int64_t)arg(t, 7, 1000)); int pattern = (int)arg(t, 5);
+  for (int64_t i = 0; i < n; ++i) s.update(Item<T>::of(pat(pattern, base, i, n) % uni), (uint64_t)(1 + (i * 7) % 5));
+  return new FiObj<T, SD, FAMCODE>(std::move(s));
+}
+
+// ===============================================================================================================
+// Count-min
+// ===============================================================================================================
+struct CmObj : Obj {
+  typedef count_min_sketch<int64_t> sk_t;
+  sk_t sk; uint64_t seed;
+  CmObj(sk_t&& s, uint64_t sd_) : sk(std::move(s)), seed(sd_) {}
+  int fam() const override { return FAM_CM; }
+  int state_class() override { return sk.is_empty() ? 0 : 1; }
+  Bytes ser(unsigned h) override { return to_bytes(sk.serialize(h)); }
+  void ser(std::ostream& os) override { sk.serialize(os); }
+  long adv_size() override { return (long)sk.get_serialized_size_bytes(); }
+  Obj* de(const void* p, size_t n) override { return new CmObj(sk_t::deserialize(p, n, seed), seed); }
+  Obj* de(std::istream& is) override { return new CmObj(sk_t::deserialize(is, seed), seed); }
+  void observe(Line& l, int mode) override {
+    l.push_back(sk.get_num_hashes()); l.push_back((I)sk.get_num_buckets()); l.push_back((I)sk.get_seed()); l.push_back(sk.is_empty()); l.push_back((I)sk.get_total_weight());
+    size_t guard = 0;
+    for (auto it = sk.begin(); it != sk.end(); ++it) { l.push_back((I)*it); if (++guard > (1u << 24)) throw std::runtime_error("iteration does not end"); }
+    if (mode >= 1) {
+      l.push_back(vh::dbits(sk.get_relative_error()));
+      for (int64_t v = 0; v < 6; ++v) { l.push_back((I)sk.get_estimate((uint64_t)(v * 3))); l.push_back((I)sk.get_upper_bound((uint64_t)(v * 3))); l.push_back((I)sk.get_lower_bound((uint64_t)(v * 3))); }
+      l.push_back((I)sk.get_estimate(std::string("abc")));
+    }
+  }
+  bool cont(const Line& seg) override {
+    int64_t n = (int64_t)arg(seg, 0, 50), base = (int64_t)arg(seg, 1, 7), un = (int64_t)arg(seg, 2, 0);
+    for (int64_t i = 0; i < n; ++i) sk.update((uint64_t)(pat(4, base, i, n) % 40), 1 + i % 3);
+    if (un > 0) { sk_t o(sk.get_num_hashes(), sk.get_num_buckets(), sk.get_seed()); for (int64_t i = 0; i < un; ++i) o.update((uint64_t)i, 2); o.update(std::string("abc"), 4); sk.merge(o); }
+    return true;
+  }
+};
+inline Obj* build_cm(const Line& t) {   // num_hashes num_buckets seed n base
+  uint64_t seed = (uint64_t)arg(t, 5, DEFAULT_SEED);
+  count_min_sketch<int64_t> s((uint8_t)arg(t, 3, 3), (uint32_t)arg(t, 4, 16), seed);
+  int64_t n = (int64_t)arg(t, 6), base = (int64_t)arg(t, 7);
+  for (int64_t i = 0; i < n; ++i) { if (i % 4 == 3) s.update(Item<std::string>::of(base + i), 2); else s.update((uint64_t)(pat(4, base, i, n)), 1 + i % 5); }
+  return new CmObj(std::move(s), seed);
+}
+
+// ===============================================================================================================
+// VarOpt sketch and union
+// ===============================================================================================================
+template<typename Sk> inline void varopt_rows(const Sk& sk, Line& l) {
+  std::vector<Line> rows; size_t guard = 0;
+  for (auto it = sk.begin(); it != sk.end(); ++it) {
+    Line r; Item<typename std::decay<decltype((*it).first)>::type>::enc(r, (*it).first); r.push_back(vh::dbits((*it).second)); rows.push_back(r);
+    if (++guard > (1u << 22)) throw std::runtime_error("iteration does not end");
+  }
+  put_rows(l, rows, true);
+}
+template<typename T, typename SD, int FAMCODE>
+struct VoObj : Obj {
+  typedef var_opt_sketch<T> sk_t;
+  sk_t sk; SD sd;
+  explicit VoObj(sk_t&& s) : sk(std::move(s)) {}
+  int fam() const override { return FAMCODE; }
+  int state_class() override { return sk.is_empty() ? 0 : sk.r_ == 0 ? 1 : 2; }   // empty / exact (warm-up) / sampling
+  Bytes ser(unsigned h) override { return to_bytes(sk.serialize(h, sd)); }
+  void ser(std::ostream& os) override { sk.serialize(os, sd); }
+  long adv_size() override { return (long)sk.template get_serialized_size_bytes<T, SD>(sd); }
+  Obj* de(const void* p, size_t n) override { return new VoObj(sk_t::deserialize(p, n, sd)); }
+  Obj* de(std::istream& is) override { return new VoObj(sk_t::deserialize(is, sd)); }
+  void observe(Line& l, int mode) override {
+    l.push_back((I)sk.get_k()); l.push_back((I)sk.get_n()); l.push_back((I)sk.get_num_samples()); l.push_back(sk.is_empty());
+    varopt_rows(sk, l);
+    if (mode <= 1) { l.push_back((I)sk.h_); l.push_back((I)sk.r_); l.push_back(vh::dbits(sk.total_wt_r_)); l.push_back((int)sk.rf_); }
+  }
+  bool cont(const Line& seg) override {
+    int64_t n = (int64_t)arg(seg, 0, 50), base = (int64_t)arg(seg, 1, 7);
+    for (int64_t i = 0; i < n; ++i) sk.update(Item<T>::of(base + i), 1.0 + (double)(i % 7));
+    return true;
+  }
+};
+template<typename T, typename SD, int FAMCODE>
+inline Obj* build_vo(const Line& t) {   // k rf n base heavy
+  var_opt_sketch<T> s((uint32_t)arg(t, 3, 16), (resize_factor)(int)arg(t, 4, 3));
+  int64_t n = (int64_t)arg(t, 5), base = (int64_t)arg(t, 6); int64_t heavy = (int64_t)arg(t, 7, 0);
+  for (int64_t i = 0; i < n; ++i) s.update(Item<T>::of(base + i), (heavy && i % heavy == 0) ? 1000.0 + (double)i : 1.0 + 0.25 * (double)(i % 9));
+  return new VoObj<T, SD, FAMCODE>(std::move(s));
+}
+struct VouObj : Obj {
+  typedef var_opt_union<int64_t> u_t;
+  u_t u;
+  explicit VouObj(u_t&& x) : u(std::move(x)) {}
+  int fam() const override { return FAM_VOU; }
+  int state_class() override { return u.n_ == 0 ? 0 : u.gadget_.r_ == 0 ? 1 : (u.outer_tau_denom_ > 0 ? 3 : 2); }
+  Bytes ser(unsigned h) override { return to_bytes(u.serialize(h)); }
+  void ser(std::ostream& os) override { u.serialize(os); }
+  long adv_size() override { return (long)u.get_serialized_size_bytes(); }
+  Obj* de(const void* p, size_t n) override { return new VouObj(u_t::deserialize(p, n)); }
+  Obj* de(std::istream& is) override { return new VouObj(u_t::deserialize(is)); }
+  void observe(Line& l, int mode) override {
+    var_opt_sketch<int64_t> r = u.get_result();
+    l.push_back((I)r.get_k()); l.push_back((I)r.get_n()); l.push_back((I)r.get_num_samples()); l.push_back(r.is_empty());
+    varopt_rows(r, l);
+    if (mode <= 1) { l.push_back((I)u.n_); l.push_back((I)u.max_k_); l.push_back(vh::dbits(u.outer_tau_numer_)); l.push_back((I)u.outer_tau_denom_); l.push_back((I)u.gadget_.h_); l.push_back((I)u.gadget_.r_); }
+  }
+  bool cont(const Line& seg) override {
+    var_opt_sketch<int64_t> s((uint32_t)std::max<int64_t>(1, (int64_t)arg(seg, 2, 8)));
+    for (int64_t i = 0; i < (int64_t)arg(seg, 0, 50); ++i) s.update(arg(seg, 1, 7) + i, 1.0 + (double)(i % 5));
+    u.update(s);
+    return true;
+  }
+};
+inline Obj* build_vou(const Line& t) {   // max_k k1 n1 k2 n2 heavy
+  var_opt_union<int64_t> u((uint32_t)arg(t, 3, 16));
+  for (int j = 0; j < 2; ++j) {
+    int64_t k = (int64_t)arg(t, 4 + 2 * j, 0), n = (int64_t)arg(t, 5 + 2 * j, 0);
+    if (k <= 0) continue;
+    var_opt_sketch<int64_t> s((uint32_t)k);
+    for (int64_t i = 0; i < n; ++i) s.update(1000 * j + i, (arg(t, 8) && i % 5 == 0) ? 500.0 + (double)i : 1.0 + 0.5 * (double)(i % 4));
+    u.update(s);
+  }
+  return new VouObj(std::move(u));
+}
+
+// ===============================================================================================================
+// EBPPS
+// ===============================================================================================================
+template<typename T, typename SD, int FAMCODE>
+struct EbObj : Obj {
+  typedef ebpps_sketch<T> sk_t;
+  sk_t sk; SD sd;
+  explicit EbObj(sk_t&& s) : sk(std::move(s)) {}
+  int fam() const override { return FAMCODE; }
+  int state_class() override { return sk.is_empty() ? 0 : (sk.sample_.partial_item_ ? 2 : 1); }
+  Bytes ser(unsigned h) override { return to_bytes(sk.serialize(h, sd)); }
+  void ser(std::ostream& os) override { sk.serialize(os, sd); }
+  long adv_size() override { return (long)sk.get_serialized_size_bytes(sd); }
+  Obj* de(const void* p, size_t n) override { return new EbObj(sk_t::deserialize(p, n, sd)); }
+  Obj* de(std::istream& is) override { return new EbObj(sk_t::deserialize(is, sd)); }
+  void observe(Line& l, int mode) override {
+    l.push_back((I)sk.get_k()); l.push_back((I)sk.get_n()); l.push_back(sk.is_empty());
+    l.push_back(vh::dbits(sk.get_cumulative_weight())); l.push_back(vh::dbits(sk.get_c()));
+    if (mode <= 1) {
+      l.push_back(vh::dbits(sk.wt_max_)); l.push_back(vh::dbits(sk.rho_));
+      std::vector<Line> rows;
+      for (const T& x : sk.sample_.data_) { Line r; Item<T>::enc(r, x); rows.push_back(r); }
+      put_rows(l, rows, true);
+      if (sk.sample_.partial_item_) { l.push_back(1); Item<T>::enc(l, *sk.sample_.partial_item_); } else l.push_back(0);
+    } else {
+      src().seed(99); random_utils::verif_src() = &src();
+      auto r = sk.get_result(); l.push_back((I)r.size());
+    }
+  }
+  bool cont(const Line& seg) override {
+    int64_t n = (int64_t)arg(seg, 0, 50), base = (int64_t)arg(seg, 1, 7), un = (int64_t)arg(seg, 2, 0);
+    for (int64_t i = 0; i < n; ++i) sk.update(Item<T>::of(base + i), 1.0 + (double)(i % 3));
+    if (un > 0) { sk_t o(sk.get_k()); for (int64_t i = 0; i < un; ++i) o.update(Item<T>::of(900 + i), 1.5); sk.merge(o); }
+    return true;
+  }
+};
+template<typename T, typename SD, int FAMCODE>
+inline Obj* build_eb(const Line& t) {   // k n base wmode
+  ebpps_sketch<T> s((uint32_t)arg(t, 3, 8));
+  int64_t n = (int64_t)arg(t, 4), base = (int64_t)arg(t, 5); int wm = (int)arg(t, 6);
+  for (int64_t i = 0; i < n; ++i) s.update(Item<T>::of(base + i), wm == 0 ? 1.0 : wm == 1 ? 1.0 + 0.5 * (double)(i % 5) : (i % 11 == 0 ? 40.0 : 0.75));
+  return new EbObj<T, SD, FAMCODE>(std::move(s));
+}
+
+SERDE_LINKAGE Obj* build_g4(int fam, const Line& t) {
+  switch (fam) {
+    case FAM_FI_I: return build_fi<int64_t, serde<int64_t>, FAM_FI_I>(t);
+    case FAM_FI_S: return build_fi<std::string, serde<std::string>, FAM_FI_S>(t);
+    case FAM_CM: return build_cm(t);
+    case FAM_VO_I: return build_vo<int64_t, serde<int64_t>, FAM_VO_I>(t);
+    case FAM_VO_S: return build_vo<std::string, xs_serde, FAM_VO_S>(t);
+    case FAM_VOU: return build_vou(t);
+    case FAM_EBPPS_I: return build_eb<int64_t, serde<int64_t>, FAM_EBPPS_I>(t);
+    case FAM_EBPPS_S: return build_eb<std::string, xs_serde, FAM_EBPPS_S>(t);
+    default: return nullptr;
+  }
+}
+#endif // group 4
+
+#if SERDE_G(5)
+// ===============================================================================================================
+// t-digest (double / float, image with and without the buffer)
+// ===============================================================================================================
+template<typename T> struct FB;
+template<> struct FB<double> { static I bits(double x) { return vh::dbits(x); } };
+template<> struct FB<float> { static I bits(float x) { return vh::fbits(x); } };
+inline void put_be(Bytes& out, const void* p, size_t k) { const uint8_t* b = static_cast<const uint8_t*>(p); for (size_t i = 0; i < k; ++i) out.push_back(b[k - 1 - i]); }
+
+template<typename T, int FAMCODE>
+struct TdObj : Obj {
+  typedef tdigest<T> sk_t;
+  sk_t sk; bool with_buffer;
+  TdObj(sk_t&& s, bool wb) : sk(std::move(s)), with_buffer(wb) {}
+  int fam() const override { return FAMCODE; }
+  int state_class() override {   // 0 empty, 1 single value, 2 centroids only, 3 centroids + buffer, 4 buffer only; +8 image with buffer
+    int c = sk.is_empty() ? 0 : sk.get_total_weight() == 1 ? 1 : sk.buffer_.empty() ? 2 : sk.centroids_.empty() ? 4 : 3;
+    return c + (with_buffer ? 8 : 0);
+  }
+  Bytes ser(unsigned h) override { return to_bytes(sk.serialize(h, with_buffer)); }
+  void ser(std::ostream& os) override { sk.serialize(os, with_buffer); }
+  long adv_size() override { return (long)sk.get_serialized_size_bytes(with_buffer); }
+  Obj* de(const void* p, size_t n) override { return new TdObj(sk_t::deserialize(p, n), with_buffer); }
+  Obj* de(std::istream& is) override { return new TdObj(sk_t::deserialize(is), with_buffer); }
+  void observe(Line& l, int mode) override {
+    l.push_back(sk.get_k()); l.push_back((I)sk.get_total_weight()); l.push_back(sk.is_empty());
+    if (sk.is_empty()) return;
+    l.push_back(FB<T>::bits(sk.get_min_value())); l.push_back(FB<T>::bits(sk.get_max_value()));
+    if (mode <= 1) {
+      l.push_back((I)sk.centroids_.size());
+      for (const auto& c : sk.centroids_) { l.push_back(FB<T>::bits(c.get_mean())); l.push_back((I)c.get_weight()); }
+      l.push_back((I)sk.buffer_.size());
+      for (T x : sk.buffer_) l.push_back(FB<T>::bits(x));
+    }
+    if (mode == 1) l.push_back(sk.reverse_merge_);
+    if (mode >= 1) {
+      static const double RK[5] = {0.0, 0.1, 0.5, 0.99, 1.0};
+      for (int i = 0; i < 5; ++i) l.push_back(FB<T>::bits(sk.get_quantile(RK[i])));
+      l.push_back(vh::dbits(sk.get_rank(sk.get_min_value()))); l.push_back(vh::dbits(sk.get_rank((T)((sk.get_min_value() + sk.get_max_value()) / 2))));
+    }
+  }
+  bool cont(const Line& seg) override {
+    int64_t n = (int64_t)arg(seg, 0, 50), base = (int64_t)arg(seg, 1, 7), un = (int64_t)arg(seg, 2, 0);
+    for (int64_t i = 0; i < n; ++i) sk.update((T)Item<double>::of(pat(2, base, i, n)));
+    if (un > 0) { sk_t o(sk.get_k()); for (int64_t i = 0; i < un; ++i) o.update((T)(0.5 * (double)i)); sk.merge(o); }
+    return true;
+  }
+  // images in the two formats of the reference implementation (big endian), written from the description in
+  // tdigest_impl.hpp: kind 1 = asBytes() (doubles), kind 2 = asSmallBytes() (floats)
+  bool legacy(int kind, Bytes& out) override {
+    if (sk.is_empty()) return false;
+    sk.compress();
+    out.clear(); out.push_back(0); out.push_back(0); out.push_back(0); out.push_back((uint8_t)kind);
+    double mn = (double)sk.get_min_value(), mx = (double)sk.get_max_value();
+    put_be(out, &mn, 8); put_be(out, &mx, 8);
+    if (kind == 1) {
+      double k = (double)sk.get_k(); put_be(out, &k, 8);
+      uint32_t nc = (uint32_t)sk.centroids_.size(); put_be(out, &nc, 4);
+      for (const auto& c : sk.centroids_) { double w = (double)c.get_weight(), m = (double)c.get_mean(); put_be(out, &w, 8); put_be(out, &m, 8); }
+    } else if (kind == 2) {
+      if (sizeof(T) != 4) return false;     // means would lose precision
+      float k = (float)sk.get_k(); put_be(out, &k, 4);
+      uint32_t unused = 0; put_be(out, &unused, 4);
+      uint16_t nc = (uint16_t)sk.centroids_.size(); put_be(out, &nc, 2);
+      for (const auto& c : sk.centroids_) { float w = (float)c.get_weight(), m = (float)c.get_mean(); put_be(out, &w, 4); put_be(out, &m, 4); }
+    } else return false;
+    return true;
+  }
+};
+template<typename T, int FAMCODE>
+inline Obj* build_td(const Line& t) {   // k n pattern base with_buffer merged compress
+  tdigest<T> s((uint16_t)arg(t, 3, 100));
+  int64_t n = (int64_t)arg(t, 4), base = (int64_t)arg(t, 6); int pattern = (int)arg(t, 5);
+  for (int64_t i = 0; i < n; ++i) s.update((T)Item<double>::of(pat(pattern, base, i, n)));
+  if (arg(t, 8)) { tdigest<T> o((uint16_t)arg(t, 3, 100)); for (int64_t i = 0; i < n / 2 + 1; ++i) o.update((T)(1000.0 + (double)i)); s.merge(o); }
+  if (arg(t, 9)) s.compress();
+  return new TdObj<T, FAMCODE>(std::move(s), arg(t, 7) != 0);
+}
+
+// ===============================================================================================================
+// Bloom filter: owned, initialised in caller memory, read-only wrap
+// ===============================================================================================================
+inline void bloom_observe(bloom_filter& f, Line& l, int mode) {
+  l.push_back((I)f.get_capacity()); l.push_back(f.get_num_hashes()); l.push_back((I)f.get_seed()); l.push_back(f.is_empty());
+  l.push_back((I)f.get_bits_used());
+  if (mode <= 1) { const uint64_t nb = f.capacity_bits_ >> 3; for (uint64_t i = 0; i < nb; i += 8) { uint64_t w; memcpy(&w, f.bit_array_ + i, 8); l.push_back((I)w); } }
+  I q = 0; for (uint64_t v = 0; v < 32; ++v) q = (q << 1) | (f.query(v * 3) ? 1 : 0);
+  l.push_back(q); l.push_back(f.query(std::string("abc")));
+}
+struct BloomObj : Obj {
+  bloom_filter f; int famcode; std::unique_ptr<uint8_t[]> mem;
+  BloomObj(bloom_filter&& x, int fc, uint8_t* m = nullptr) : f(std::move(x)), famcode(fc), mem(m) {}
+  ~BloomObj() override {}
+  int fam() const override { return famcode; }
+  int state_class() override { return (f.is_empty() ? 0 : 1) + (f.is_dirty_ ? 2 : 0) + (f.is_wrapped() ? 4 : 0) + (f.is_read_only() ? 8 : 0); }
+  Bytes ser(unsigned h) override { return to_bytes(f.serialize(h)); }
+  void ser(std::ostream& os) override { f.serialize(os); }
+  long adv_size() override { return (long)f.get_serialized_size_bytes(); }
+  Obj* de(const void* p, size_t n) override { return new BloomObj(bloom_filter::deserialize(p, n), FAM_BLOOM); }
+  Obj* de(std::istream& is) override { return new BloomObj(bloom_filter::deserialize(is), FAM_BLOOM); }
+  bool has_wrap() const override { return true; }
+  Obj* wrap(const void* p, size_t n) override { return new BloomObj(bloom_filter(bloom_filter::wrap(p, n)), FAM_BLOOM_WRAP); }
+  void observe(Line& l, int mode) override { bloom_observe(f, l, mode); }
+  bool cont(const Line& seg) override {
+    if (f.is_read_only()) return false;
+    int64_t n = (int64_t)arg(seg, 0, 50), base = (int64_t)arg(seg, 1, 7), un = (int64_t)arg(seg, 2, 0);
+    for (int64_t i = 0; i < n; ++i) f.update((uint64_t)(base + i));
+    if (un > 0) { bloom_filter o = bloom_filter::builder::create_by_size(f.get_capacity(), f.get_num_hashes(), f.get_seed()); for (int64_t i = 0; i < un; ++i) o.update((uint64_t)(5000 + i)); f.union_with(o); }
+    return true;
+  }
+};
+inline Obj* build_bloom(int fam, const Line& t) {   // num_bits num_hashes seed n base invert
+  uint64_t nb = (uint64_t)arg(t, 3, 256); uint16_t nh = (uint16_t)arg(t, 4, 3); uint64_t seed = (uint64_t)arg(t, 5, 123);
+  int64_t n = (int64_t)arg(t, 6), base = (int64_t)arg(t, 7);
+  std::unique_ptr<BloomObj> o;
+  if (fam == FAM_BLOOM) o.reset(new BloomObj(bloom_filter::builder::create_by_size(nb, nh, seed), FAM_BLOOM));
+  else {
+    size_t len = bloom_filter::get_serialized_size_bytes(nb);
+    uint8_t* m = new uint8_t[len]; memset(m, 0xcd, len);
+    std::unique_ptr<uint8_t[]> guard(m);
+    bloom_filter f = bloom_filter::builder::initialize_by_size(m, len, nb, nh, seed);
+    guard.release();
+    o.reset(new BloomObj(std::move(f), FAM_BLOOM_MEM, m));
+  }
+  for (int64_t i = 0; i < n; ++i) { if (i % 5 == 4) o->f.update(Item<std::string>::of(base + i)); else o->f.update((uint64_t)(base + i)); }
+  if (arg(t, 8)) o->f.invert();
+  return o.release();
+}
+
+// ===============================================================================================================
+// Density sketch
+// ===============================================================================================================
+template<typename T, int FAMCODE>
+struct DensObj : Obj {
+  typedef density_sketch<T> sk_t;
+  sk_t sk;
+  explicit DensObj(sk_t&& s) : sk(std::move(s)) {}
+  int fam() const override { return FAMCODE; }
+  int state_class() override { return sk.get_n() == 0 ? 0 : sk.is_estimation_mode() ? 2 : 1; }
+  Bytes ser(unsigned h) override { return to_bytes(sk.serialize(h)); }
+  void ser(std::ostream& os) override { sk.serialize(os); }
+  Obj* de(const void* p, size_t n) override { return new DensObj(sk_t::deserialize(p, n)); }
+  Obj* de(std::istream& is) override { return new DensObj(sk_t::deserialize(is)); }
+  void observe(Line& l, int mode) override {
+    l.push_back(sk.get_k()); l.push_back((I)sk.get_dim()); l.push_back((I)sk.get_n()); l.push_back((I)sk.get_num_retained()); l.push_back(sk.is_empty()); l.push_back(sk.is_estimation_mode());
+    std::vector<Line> rows; size_t guard = 0;
+    for (auto it = sk.begin(); it != sk.end(); ++it) {
+      Line r; for (T x : (*it).first) r.push_back(FB<T>::bits(x)); r.push_back((I)(*it).second); rows.push_back(r);
+      if (++guard > (1u << 22)) throw std::runtime_error("iteration does not end");
+    }
+    put_rows(l, rows, true);
+    if (mode >= 1 && !sk.is_empty()) {
+      std::vector<T> q(sk.get_dim(), (T)0.5);
+      l.push_back(FB<T>::bits(sk.get_estimate(q)));
+    }
+  }
+  bool cont(const Line& seg) override {
+    int64_t n = (int64_t)arg(seg, 0, 50), base = (int64_t)arg(seg, 1, 7), un = (int64_t)arg(seg, 2, 0);
+    std::vector<T> p(sk.get_dim());
+    for (int64_t i = 0; i < n; ++i) { for (uint32_t d = 0; d < sk.get_dim(); ++d) p[d] = (T)(0.125 * (double)((base + i * 3 + d) % 17)); sk.update(p); }
+    if (un > 0) { sk_t o(sk.get_k(), sk.get_dim()); for (int64_t i = 0; i < un; ++i) { for (uint32_t d = 0; d < sk.get_dim(); ++d) p[d] = (T)(0.25 * (double)((i + d) % 9)); o.update(p); } sk.merge(o); }
+    return true;
+  }
+};
+template<typename T, int FAMCODE>
+inline Obj* build_dens(const Line& t) {   // k dim n base
+  density_sketch<T> s((uint16_t)arg(t, 3, 10), (uint32_t)arg(t, 4, 2));
+  int64_t n = (int64_t)arg(t, 5), base = (int64_t)arg(t, 6);
+  std::vector<T> p(s.get_dim());
+  for (int64_t i = 0; i < n; ++i) { for (uint32_t d = 0; d < s.get_dim(); ++d) p[d] = (T)(0.0625 * (double)((base + i * 7 + d * 3) % 41)); s.update(p); }
+  return new DensObj<T, FAMCODE>(std::move(s));
+}
+
+SERDE_LINKAGE Obj* build_g5(int fam, const Line& t) {
+  switch (fam) {
+    case FAM_TD_D: return build_td<double, FAM_TD_D>(t);
+    case FAM_TD_F: return build_td<float, FAM_TD_F>(t);
+    case FAM_BLOOM: case FAM_BLOOM_MEM: return build_bloom(fam, t);
+    case FAM_DENS_D: return build_dens<double, FAM_DENS_D>(t);
+    case FAM_DENS_F: return build_dens<float, FAM_DENS_F>(t);
+    default: return nullptr;
+  }
+}
+#endif // group 5
+
+// FAMILIES-END
+#if SERDE_GROUP == 0
+inline Obj* build(int fam, const Line& t) {
+  Obj* p = nullptr;
+  if ((p = build_g1(fam, t))) return p;
+  if ((p = build_g2(fam, t))) return p;
+  if ((p = build_g3(fam, t))) return p;
+  if ((p = build_g4(fam, t))) return p;
+  if ((p = build_g5(fam, t))) return p;
+  return nullptr;
+}
+#endif
 } // namespace sd
 #endif
